@@ -259,4 +259,19 @@ def intconvOp (w : List String) : String :=
     | _, _ => "bad-op"
   | _ => "bad-op"
 
+/-- `tovecs <call>…` (harness/cfg, alloc builds): successive `minicbor::to_vec` calls; a call's result does not depend on
+    the calls before it: `f` fails, `u8:<n>` / `str:<hex>` give the encoding. -/
+def tovecsOp (w : List String) : String :=
+  let one (c : String) : Option String :=
+    match c.splitOn ":" with
+    | ["f"] => some "err"
+    | ["u8", a] => match a.toNat? with
+      | some n => if n < 256 then some (hexOfBytes (Enc.u8 n)) else none
+      | none => none
+    | ["str", a] => (bytesOfHex a).map fun b => hexOfBytes (Enc.str b)
+    | _ => none
+  match w.mapM one with
+  | some rs => if rs.isEmpty then "-" else ",".intercalate rs
+  | none => "bad-op"
+
 end Minicbor.Drv
